@@ -3,6 +3,10 @@ CONSTANTS
   Ds = {0, 1, 2, 7}
   MaxClock = 100000000
   W0 = 5
+  W0B = 9000000
+  Ambients = {"A", "B", "none"}
+  Threads = {"main", "other"}
+  Resolution = "captured"
   Depth = 2000
 SPECIFICATION RSpec
 INVARIANT Emit
